@@ -66,11 +66,8 @@ def judge_list_refines(ctx: Ctx, ev: P.Event, case: Any, exact_ok: bool) -> None
         return
     ctx.count("events:PTL.refines")
     if ev.out != "ret":
-        if not M.is_documented(ev.exc):
-            ctx.violation("exc:%s@%s" % (ev.exc, ev.exc_where), "%s escaped from PolyhedralTermList.refines" % ev.exc,
-                          case)
-        else:
-            ctx.count("list:raised:%s" % ev.exc)
+        # undocumented exception types are C14's business (its check runs this workload too)
+        ctx.count("list:raised:%s" % ev.exc)
         return
     cls = classify(left, right)
     if cls == "unknown":
@@ -151,10 +148,11 @@ def run_case(ctx: Ctx, case: Dict[str, Any]) -> None:  # noqa: C901
                     s1["in"], s1["out"], s2["in"], s2["out"], got), case)
         elif outcome == "raise":
             if not isinstance(got, ValueError):
-                ctx.violation("exc:%s@%s" % (type(got).__name__, P.exc_origin(got)),
-                              "%s escaped from IoContract.refines" % type(got).__name__, case)
-            else:
+                ctx.count("undocumented-exception(C14):%s" % type(got).__name__)
+            elif type(got).__name__ == "IncompatibleArgsError":
                 ctx.violation("same-interface-rejected", "refines on equal interfaces raised %r" % got, case)
+            else:
+                ctx.count("contract:raised:ValueError")
         else:
             cls = contract_truth(s1, s2)
             ctx.count("contract:%s:%s" % (fam, cls))
@@ -189,9 +187,7 @@ def run_case(ctx: Ctx, case: Dict[str, Any]) -> None:  # noqa: C901
         ctx.count("events:contains_" + kind)
         nontrivial = True
         if outcome == "raise":
-            if not isinstance(got, ValueError):
-                ctx.violation("exc:%s@%s" % (type(got).__name__, P.exc_origin(got)),
-                              "%s escaped from contains_%s" % (type(got).__name__, kind), case)
+            ctx.count("%s:raised:%s" % (kind, type(got).__name__))
         else:
             if kind == "env":
                 cls = classify(case["comp"], sc["a"])
